@@ -714,6 +714,9 @@ class ParserField:
             for dep in self.dependencies:
                 if dep in alias_map:
                     dep = alias_map[dep]
+                if dep not in fields and isinstance(dep, str) and dep.lower() in fields:
+                    # a case-insensitive field is kept under its lower-case name
+                    dep = dep.lower()
                 if dep not in fields:
                     # continue
                     # if dependencies is generated from unbound, it is considered inaccurate
